@@ -21,6 +21,8 @@ ASSUMPTIONS = ['the B operator handed to the adaptor is the positive-definite ma
 def run(ctx):
     from . import stale
     stale.loop_buffers(ctx, scope=lambda fn: fn.cls in ('Spectra::Arnoldi', 'Spectra::Lanczos'), min_instances=4)
+    from . import hygiene
+    hygiene.noalias_destination_not_in_product(ctx, scope=lambda fn: fn.cls in ('Spectra::Arnoldi', 'Spectra::Lanczos', 'Spectra::ArnoldiOp'), min_instances=10)
     fz.no_direct_reduction(ctx)
     fz.adaptor_agreement(ctx)
     fz.subdiagonal_on_breakdown(ctx)
